@@ -2534,13 +2534,9 @@ class ArrayWriter:
         i = 0
         ntot = len(fields)
 
-        if np_vers == 2:
-            string_types = (np.str_, np.bytes_)
-        else:
-            string_types = (np.str_, np.string_)
-
         for name in fields:
-            if isinstance(array[name][0], string_types) or (array[name][0].ndim > 0):  # noqa
+            fdtype = array.dtype[name]
+            if fdtype.kind in "SU" or fdtype.shape != ():
                 forms[name] = " %-" + str(max_lens[name]) + "s "
             else:
                 forms[name] = " %" + str(max_lens[name]) + "s "
